@@ -339,6 +339,13 @@ impl Builtins {
                 if let &Value::P(Primitive::Str(ref c_type)) = c_type_val.as_ref() {
                     let stdout = env.borrow().stdout();
                     match env.borrow().converter_registry.get_converter(c_type) { Some(c) => {
+                        // Convert into memory first. The artifact is only
+                        // created, or an older one replaced, once we know the
+                        // conversion succeeded.
+                        let mut buf: Vec<u8> = Vec::new();
+                        if let Err(e) = c.convert(Rc::new(val), &mut buf) {
+                            return Err(Error::new(format!("{}", e).into(), pos.clone()));
+                        }
                         let mut writer: Box<dyn std::io::Write> = match write_path {
                             Some(p) => {
                                 let p = p.with_extension(c.file_ext());
@@ -346,9 +353,7 @@ impl Builtins {
                             }
                             None => Box::new(stdout),
                         };
-                        if let Err(e) = c.convert(Rc::new(val), &mut writer) {
-                            return Err(Error::new(format!("{}", e).into(), pos.clone()));
-                        }
+                        writer.write_all(&buf)?;
                         return Ok(());
                     } _ => {
                         return Err(Error::new(
